@@ -305,6 +305,10 @@ func Expiry() Spec {
 		Buy(D, "B0-all", BuySpec{Seller: B, K: 0, DAR: true, MaxFee: I64(100)}),
 		CancelOrder(B, B, 1),
 		CancelOrder(C, C, 0),
+		// what a seller does in the OTHER modules while orders are open must not make a later expiry fail
+		fix(Send(B, D, B1, "0.5", "0.25")), // retire-on-send
+		fix(Retire(B, B1, "0.5")),
+		fix(Put(B, NCT, BC(B1, "0.5"))),
 		fix(Next(5 * time.Second)),
 		fix(Next(10 * time.Second)),
 		fix(Next(10*time.Second + time.Nanosecond)),
